@@ -83,8 +83,9 @@ def render_arguments(I, st, caller, fa):
             if b & 0x01:
                 flags = int.from_bytes(bytes(tpl[i:i + 4]), "little")
                 i += 4
-                # default flags: fill ' ' (0x20), alignment unknown (bits 29-30 set): anything else (sign, alternate, zero pad, debug hex) is not modelled
-                if flags & 0x1FE00000:
+                # bits 21-26: sign, alternate, zero pad, debug hex (not modelled); 27 / 28: width / precision present (their values follow);
+                # 29-30: alignment (only matters with a width); low 21 bits: fill character
+                if flags & 0x07E00000:
                     raise Unencodable("format placeholder flags 0x%08x" % flags)
             if b & 0x02:
                 width = int.from_bytes(bytes(tpl[i:i + 2]), "little")
@@ -141,11 +142,11 @@ def fmt_models(I, st, caller, func, args, argtys, dest_ty):
             I.store(st2, args[0], sstr.concat([acc, s]))
             return ret(st2, EnumV("Result", 0, {0: (UNIT,)}))
         return None
-    if re.match(r"^(String|str|core::str::<impl str>)::is_empty$", f):
+    if re.match(r"^(String|str|(\w+::)*str::<impl str>)::is_empty$", f):
         v = deref_all(I, st, args[0])
         if isinstance(v, sstr.SymStr):
             return ret(st, (v.length == 0) if z3.is_expr(v.length) else z3.BoolVal(v.length == 0))
-    if re.match(r"^(String|str|core::str::<impl str>|alloc::str::<impl str>)::(to_ascii_lowercase|to_ascii_uppercase|to_lowercase|to_uppercase)$", f):
+    if re.match(r"^(String|str|(\w+::)*str::<impl str>)::(to_ascii_lowercase|to_ascii_uppercase|to_lowercase|to_uppercase)$", f):
         v = deref_all(I, st, args[0])
         if isinstance(v, sstr.SymStr):
             lower = "lower" in f
